@@ -42,6 +42,7 @@ def f_check(plan, dq=150, dt=900):
 
 A = ["harness/engine_a.c"] + COMMON
 H = ["harness/engine_h.c"] + COMMON
+T_SRCS = ["harness/engine_t.c", "harness/vsched.c", "harness/vh.c", "ref/ref.c"]
 RULE_H = ("explicit-state search over abstract registry states (sequence of live configurations in registry order, <= 4 slots, counter preset or not): every state is "
           "built by its canonical history in a child forked from a pristine process and every operation of the alphabet (create x5, failed create x3, destroy slot, use slot, "
           "7 error exits per slot, counter preset) is applied to it as real API calls; invariants of the set model are checked after each call, self-loops must leave the "
@@ -95,6 +96,18 @@ CHECKS = {
             "assumptions": ["workload of about a dozen backend calls per configuration: rs_vand (4,2), flat_xor_hd (5,5,3), isa_l_rs_vand (4,2), isa_l_rs_cauchy (3,3), null (2,1) (+3 in thorough)",
                             "a backend 'failure' is a negative / NULL return of the operation-table entry; failures inside the plug-in's primitives (matrix inversion) are C19's subject",
                             "allocation failure is not injected"]},
+    "C18": {"runs": [{"name": "asan", "plan": "asan", "srcs": T_SRCS, "san": "asan", "hooks": True, "nosan": ("vsched.c",), "opts": {"quick": {"bound": 2, "drivers": 5, "bound3": 1}, "thorough": {"bound": 3, "drivers": 8, "bound3": 2}}},
+                     {"name": "tsan", "plan": "tsan", "srcs": T_SRCS, "san": "tsan", "hooks": True, "nosan": ("vsched.c",), "opts": {"quick": {"bound": 1, "drivers": 5, "bound3": 1}, "thorough": {"bound": 2, "drivers": 8, "bound3": 1}}}],
+            "level": "model_checking", "deadline": {"quick": 200, "thorough": 1800},
+            "rule": ("stateless depth-first enumeration of all interleavings of 2-3 real threads under a serialising scheduler: scheduling points are the guarded yield hooks in the "
+                     "registry and GF-table code and every rwlock/mutex operation (modelled, so a thread asking for a held lock is disabled); iterative preemption bounding; each "
+                     "schedule is one execution of the real library in a forked child, once under AddressSanitizer and once under ThreadSanitizer (the scheduler's futex hand-offs are "
+                     "invisible to TSan, so conflicting accesses not ordered by a real lock are reported in every schedule); per-thread results are compared with the sequential "
+                     "execution; states = executions (schedules), transitions = scheduling points taken, non-trivial = at least one switch away from a runnable thread"),
+            "assumptions": ["2-3 threads; drivers W1 (two threads create/use/destroy their own rs_vand instance), W2/W2b (shared descriptor used while another thread creates/destroys its own instance), "
+                            "W4 (last instance destroyed while another thread creates), W5 (concurrent creates kept alive; descriptors compared), W3/W2+/W1x3 with three threads",
+                            "interleavings are explored at hooked points only; accesses between hooks are covered by the ThreadSanitizer monitor on the same schedules, not by further interleaving",
+                            "sequentially consistent execution (one thread runs at a time); weak-memory effects only as far as TSan's happens-before model flags them"]},
     "C19": {"runs": [
         {"name": "c19rt", "plan": "c19rt", "srcs": S, "san": "asan", "opts": {"quick": {"ex_n": 10, "st_lens": 2}}},
         {"name": "c19rc", "plan": "c19rc", "srcs": S, "san": "asan", "opts": {"quick": {"ex_n": 8, "st_lens": 1, "ex_lens": 2, "max_n": 16}}},
